@@ -431,6 +431,27 @@ def l4_programs(ty="i32"):
         [["const", ty, 0], one, ["cjmp", "p0", "<=", "%0", 1, 2]],
         [["ret", "p1"]],
         [["bin", "-", "p1", "%1", ty], ["call", "@f", ["%2", "p0"], ty], ["ret", "%3"]]]}]})
+    # self calls that are NOT tail calls, and tail calls that forward a parameter unchanged
+    #   f(a, b) = a <= 0 ? b : (f(a-1, b+a), b+a)      -- the value returned is not the call's result
+    progs.append({"name": "l4_selfcall_returns_other_value", "functions": [{"name": "f", "ret": ty, "params": [ty, ty], "blocks": [
+        [["const", ty, 0], one, ["cjmp", "p0", "<=", "%0", 1, 2]],
+        [["ret", "p1"]],
+        [["bin", "-", "p0", "%1", ty], ["bin", "+", "p1", "p0", ty], ["call", "@f", ["%2", "%3"], ty], ["ret", "%3"]]]}]})
+    #   f(a, b) = a <= 0 ? b : f(a-1, b) + 1            -- something happens between the call and the return
+    progs.append({"name": "l4_selfcall_then_add", "functions": [{"name": "f", "ret": ty, "params": [ty, ty], "blocks": [
+        [["const", ty, 0], one, ["cjmp", "p0", "<=", "%0", 1, 2]],
+        [["ret", "p1"]],
+        [["bin", "-", "p0", "%1", ty], ["call", "@f", ["%2", "p1"], ty], ["bin", "+", "%3", "%1", ty], ["ret", "%4"]]]}]})
+    #   f(a, b) = a <= 0 ? b : f(a-1, b)                -- parameter b is passed on as it is
+    progs.append({"name": "l4_tailrec_forwards_parameter", "functions": [{"name": "f", "ret": ty, "params": [ty, ty], "blocks": [
+        [["const", ty, 0], one, ["cjmp", "p0", "<=", "%0", 1, 2]],
+        [["ret", "p1"]],
+        [["bin", "-", "p0", "%1", ty], ["call", "@f", ["%2", "p1"], ty], ["ret", "%3"]]]}]})
+    #   f(a, b) = a <= 0 ? b : f(a-1, a-1)              -- the same new value for both parameters
+    progs.append({"name": "l4_tailrec_same_value_twice", "functions": [{"name": "f", "ret": ty, "params": [ty, ty], "blocks": [
+        [["const", ty, 0], one, ["cjmp", "p0", "<=", "%0", 1, 2]],
+        [["ret", "p1"]],
+        [["bin", "-", "p0", "%1", ty], ["call", "@f", ["%2", "%2"], ty], ["ret", "%3"]]]}]})
     return progs
 
 
